@@ -229,6 +229,18 @@ pub(crate) fn apply_rules_on_link(
         // items in `queue` using rule CREATE, DELETE, MODIFY, ALLOW, REQUIRE and DISALLOW.
         // besides, use MATCH rule to filter other items.
         for rule in rules {
+            // a DISALLOW rule that cannot be interpreted must not be
+            // silently skipped
+            if let ArtifactRule::Disallow(pattern) = rule {
+                VirtualTargetPath::new(String::new())?
+                    .matches(pattern.value())
+                    .map_err(|e| {
+                        Error::ArtifactRuleError(format!(
+                            "invalid pattern in rule {:?} of {}: {}",
+                            rule, item_name, e
+                        ))
+                    })?;
+            }
             let filtered: BTreeSet<_> = queue
                 .iter()
                 .filter(|p| p.matches(rule.pattern().value()).unwrap_or(false))
